@@ -94,7 +94,7 @@ PROPS = {
         "assumptions": ["ties on the greatest timestamp: the rebuilt head names the key last in table order, the maintained head the key inserted last; both carry the same timestamp"],
     },
     "C01": {
-        "lean_modules": ["DocsModel.Props.C01", "DocsModel.Props.C01Converge"],
+        "lean_modules": ["DocsModel.Props.C01", "DocsModel.Props.C01Converge", "DocsModel.Props.C01Terminate", "DocsModel.Props.C01Tables"],
         "trusted_base": COMMON_TRUST + [
             "redb tables modelled as sorted lists (range = in-order filter by the bounds)",
             "BLAKE3 entry fingerprints are supplied by the harness with each entry; the model XORs them as the code does",
@@ -105,11 +105,11 @@ PROPS = {
             "PayloadFunctional (F11 excluded)",
             "FpInjective (hypothesis of session_converges): two different sets of entries of the two replicas never have the same XOR-of-BLAKE3 range fingerprint (BLAKE3 is outside the model; satisfiable: fpInjective_example)",
             "session_converges is proved on the ordered-map backend (mapOps) for every split_factor >= 2 and max_set_size and both initiators: IF the session ends THEN both replicas equal join(A0 u B0) = run [] (A0 ++ B0); the redb tables refine that backend primitive by primitive (C08 theorems) and message by message in the correspondence check",
-            "termination within the message budget 4(|A|+|B|)+8 and the silent second session are not theorems: they are checked by the correspondence harness on every run (for split_factor > 2 a session in which one side keeps rejecting the other's entries need not end, DESIGN.md O1)",
+            "termination is proved for split_factor = 2 (the only value the crate uses): session_terminates, within 3^(|A|+|B|+1)+1 messages (a crude bound); session_total and session_total_tables combine it with convergence, the latter on the table model through C08's session_congr. For split_factor >= 3 termination is not claimed (DESIGN.md O1) and, like the linear budget 4(|A|+|B|)+8 and the silent second session for every setting, is checked by the correspondence harness on every run",
         ],
     },
     "C08": {
-        "lean_modules": ["DocsModel.Props.C08"],
+        "lean_modules": ["DocsModel.Props.C08", "DocsModel.Props.C08Congr"],
         "trusted_base": COMMON_TRUST + [
             "redb tables modelled as sorted lists (range = in-order filter by the bounds; tuple keys compare element-wise)",
             "BLAKE3 entry fingerprints supplied by the harness; hook H2 (parameter override and the in-crate BTreeMap backend driven by the crate's own process_message)",
